@@ -33,7 +33,9 @@ func (d *driver) reduceToCase(sc *sim.Scenario) *sim.Scenario {
 			out.C06.Cases = []sim.Case{*v.Case}
 			out.World.Refs = nil // only needed to enumerate the fault space
 			out.C06.Variants = nil
-			out.C06.Invalid = nil
+			if v.Case.Class != "cli" {
+				out.C06.Invalid = nil
+			}
 			out.C06.CLI = false
 		}
 	case "C10":
